@@ -26,7 +26,7 @@ from vlib import Violation
 import c13_env
 from c13_env import (Ctl, EXC, EXC_NAMES, F_DONE, F_NORMAL, F_RAISED, F_RELEASE, F_SLEEPS, F_EXITED, make_env_fns)
 
-GUARD = 5.0            # seconds: a call that takes longer is a Hang
+GUARD = float(os.environ.get("C13_GUARD", "5"))   # seconds: a call that takes longer is a Hang (confirmation pass: 20)
 STALL = 10.0           # seconds the harness waits for a worker to become quiescent before failing closed
 FIN_TIMEOUT = 0.05     # the "finite timeout" handed to *_wait / close (workers are quiescent when it is used)
 FREE_TIMEOUT = 0.4     # the same in free-running mode (no quiescence control: generous against scheduling noise)
@@ -145,7 +145,9 @@ class ProcProxy:
     def join(self, timeout=None):
         run, j, proc = self.run, self.j, self.proc
         if proc.is_alive():
-            proc.join(0.3)                        # a worker that was just told to close / sent SIGTERM needs a moment
+            # a worker that was just told to close needs a moment; one that was sent SIGTERM/SIGKILL is certainly going to
+            # die, however loaded the machine is: wait for it instead of mistaking it for a sleeper
+            proc.join(8.0 if self.__dict__.get("signalled") else 0.3)
         for _ in range(50):
             if not proc.is_alive():
                 break
@@ -158,6 +160,14 @@ class ProcProxy:
                 raise HarnessHang(f"join on worker {j}: alive and not told to close")
             break
         return proc.join(0 if timeout is None else timeout)
+
+    def terminate(self):
+        self.__dict__["signalled"] = True
+        return self.proc.terminate()
+
+    def kill(self):
+        self.__dict__["signalled"] = True
+        return self.proc.kill()
 
     def __getattr__(self, name):
         return getattr(self.proc, name)
@@ -309,6 +319,14 @@ class Run:
         if k == "wait":
             t = tmo(op[2])
             return {"reset": lambda: v.reset_wait(t), "step": lambda: v.step_wait(t), "call": lambda: v.call_wait(t)}[op[1]]
+        if k == "sync":                           # the synchronous wrappers
+            if op[1] == "reset":
+                return lambda: v.reset()
+            if op[1] == "step":
+                import numpy as np
+                acts = {a: np.zeros(self.n, dtype=np.int64) for a in v.agents}
+                return lambda: v.step(acts)
+            return lambda: v.call("ping")
         if k == "callbad":
             return lambda: v.call_async("reset")
         if k == "setattr":
@@ -417,9 +435,9 @@ def run_case(case, progress=None):
                     rec["msg"] = str(val)[:160]
                 else:
                     rec["out"] = "Ok"
-                    if op[0] == "wait":
+                    if op[0] in ("wait", "sync"):
                         rec["seqs"] = extract_seqs(op, val, run.n)
-                if op[0] in ("async", "setattr") and rec["out"] == "Ok" and not run.free:
+                if op[0] in ("async", "setattr", "sync") and rec["out"] == "Ok" and not run.free:
                     rec["expect_seqs"] = [s - 1 for s in run.env_sent]
                 rec["sent"] = [a - b for a, b in zip(run.env_sent, sent0)]
                 if rec["out"] != "Hang" and not run.free:
@@ -515,10 +533,13 @@ def group_members(pgids):
 
 
 class Sandbox:
-    def __init__(self, budget):
+    def __init__(self, budget, case_limit=None, env=None):
+        self.case_limit = case_limit or CASE_LIMIT
+        self.env = env
         self.t_end = time.monotonic() + budget
         self.hard = 0
         self.hangs = 0
+        self.any_hangs = 0
         self.skipped = 0
         self.skip_why = ""
         self.lock = threading.Lock()
@@ -548,7 +569,7 @@ class Sandbox:
             f.write_text(json.dumps(todo))
             proc = subprocess.Popen([sys.executable, "-W", "ignore", os.path.abspath(__file__), "--runner", str(f)],
                                     stdout=subprocess.PIPE, stderr=subprocess.DEVNULL, stdin=subprocess.DEVNULL,
-                                    start_new_session=True)
+                                    start_new_session=True, env=self.env)
             with self.lock:
                 self.pgids.append(proc.pid)
             fd = proc.stdout.fileno()
@@ -582,10 +603,10 @@ class Sandbox:
                     tg, idx, payload = line[len(MAGIC):].split(" ", 2)
                     idx = int(idx)
                     if tg == "READY":
-                        deadline = time.monotonic() + CASE_LIMIT
+                        deadline = time.monotonic() + self.case_limit
                     elif tg == "B":
                         cur, recs, pre, phase = idx, [], None, "construct"
-                        deadline = time.monotonic() + CASE_LIMIT
+                        deadline = time.monotonic() + self.case_limit
                     elif tg == "S":
                         phase = json.loads(payload)["phase"]
                     elif tg == "P":
@@ -596,10 +617,14 @@ class Sandbox:
                         results[idx] = json.loads(payload)
                         if results[idx].get("hung"):
                             with self.lock:
-                                self.hangs += 1
+                                self.any_hangs += 1
+                                # only hangs that cost the wall-clock guard count towards the early stop; the ones the
+                                # proxies establish structurally are cheap (and some are legitimate second waits)
+                                if any(r.get("guard") for r in results[idx].get("trace", [])):
+                                    self.hangs += 1
                         done.add(idx)
                         cur, phase = None, "idle"
-                        deadline = time.monotonic() + CASE_LIMIT
+                        deadline = time.monotonic() + self.case_limit
             # whatever happened: nothing of that process group may survive
             try:
                 os.killpg(proc.pid, signal.SIGKILL)
@@ -619,7 +644,8 @@ class Sandbox:
                 with self.lock:
                     self.hard += 1
                     self.hangs += 1
-                results[cur] = hard_obs(cases[cur], recs, pre, phase, CASE_LIMIT)
+                    self.any_hangs += 1
+                results[cur] = hard_obs(cases[cur], recs, pre, phase, self.case_limit)
                 todo = [(i, c) for i, c in todo if i != cur]
             elif overrun:          # the runner never got as far as a case (import of the implementation blocked)
                 with self.lock:
@@ -684,6 +710,8 @@ def cq_op(op):
         return f"OAsync {KD[op[1]]}"
     if k == "wait":
         return f"OWait {KD[op[1]]} {cq_bool(op[2])}"
+    if k == "sync":
+        return f"XSync {KD[op[1]]}"
     if k == "callbad":
         return "OCallBad"
     if k == "setattr":
@@ -880,6 +908,20 @@ class C13(vlib.Driver):
                 plans[w] = [["delay", 3.0]]
                 cases.append({"plans": plans, "fam": "kill-pending", "mode": "free",
                               "ops": [["async", KINDS[(n + w) % 3]], ["kill", w], ["wait", KINDS[(n + w) % 3], False], ["close", False, False]]})
+        # (I) the synchronous wrappers reset() / step() / call(): every sequence <= 2 over the alphabet + wrappers that
+        #     contains a wrapper (misuse included), and the wrappers under elementary faults
+        syncs = [["sync", "reset"], ["sync", "step"], ["sync", "call"]]
+        for L in (1, 2):
+            for seq in itertools.product(alpha + syncs, repeat=L):
+                if any(o[0] == "sync" for o in seq):
+                    cases.append({"plans": normal(2), "ops": legal_close([list(o) for o in seq]), "fam": "sync"})
+        for so in syncs:
+            for b in (["raise", 1], ["raise", NEXC - 1], ["die"], ["sleep"]):
+                for w in (0, 1):
+                    pl = [[], []]; pl[w] = [b]
+                    cases.append({"plans": pl, "ops": [list(so), ["close", False, False]], "fam": "sync"})
+                    pl = [[["normal"]], [["normal"]]]; pl[w] = [["normal"], b]
+                    cases.append({"plans": pl, "ops": [["sync", "reset"], list(so), ["sync", "call"], ["close", False, True]], "fam": "sync"})
         # (G) staggered readiness in pipe order (free-running, real delays): worker answers after d_i seconds; with the
         #     shared deadline a wait/close with timeout T gives up at T as soon as max d_i > T, however the others are staggered
         T = STAG_T
@@ -935,9 +977,25 @@ class C13(vlib.Driver):
         obs, survivors = sb.run([todo[k] for k in keys], max(1, min(int(os.environ.get("C13_JOBS", "3")), len(keys))))
         for k, o in zip(keys, obs):
             self.cache[k] = o if o is not None else {"trace": [], "hung": False, "orphans": [], "harness_error": "case lost by the sandbox"}
+        # a Hang that rests on the wall clock alone (5 s guard / hard limit) may be machine load: such cases are run once more,
+        # alone, with four times the guard; only what hangs again is a Hang
+        def timing_hang(o):
+            return bool(o.get("hard_timeout")) or any(r.get("guard") for r in o.get("trace", []))
+        again = [k for k in keys if timing_hang(self.cache[k])][:HANG_STOP + MAX_HARD]
+        if again:
+            env2 = dict(os.environ, C13_GUARD=str(4 * GUARD))
+            sb2 = Sandbox(240.0, case_limit=4 * CASE_LIMIT, env=env2)
+            obs2, sv2 = sb2.run([todo[k] for k in again], max(1, min(2, len(again))))
+            confirmed = 0
+            for k, o in zip(again, obs2):
+                if o is not None and not o.get("skipped") and not o.get("harness_error"):
+                    confirmed += int(timing_hang(o) or o.get("hung", False))
+                    self.cache[k] = o
+            survivors = survivors + sv2
+            self.notes = list(getattr(self, "notes", [])) + [f"{len(again)} case(s) exceeded the {GUARD} s guard and were re-run with a {4 * GUARD} s guard: {confirmed} hung again"]
         if sb.skipped:
             self.skipped = getattr(self, "skipped", 0) + sb.skipped
-            self.skip_hangs = getattr(self, "skip_hangs", 0) + sb.hangs
+            self.skip_hangs = getattr(self, "skip_hangs", 0) + sb.hangs + sb.hard
             self.notes = list(getattr(self, "notes", [])) + [f"{sb.skipped} case(s) not run: {sb.skip_why}"]
         if sb.hard:
             self.notes = list(getattr(self, "notes", [])) + [f"{sb.hard} case(s) overran the hard wall-clock limit of {CASE_LIMIT} s and were killed from outside (outcome Hang)"]
@@ -1000,6 +1058,9 @@ class C13(vlib.Driver):
             g = "None" if r.get("seqs") is None else "(Some [" + "; ".join(str(int(s)) for s in r["seqs"]) + "])"
             obl.append(f"({oc}, {st}, {cq_bool(r['closed'])}, {alive}, {g})")
         plans = "[" + "; ".join("[" + "; ".join(cq_behav(b) for b in p) + "]" for p in case["plans"]) + "]"
+        if any(r["op"][0] == "sync" for r in tr):
+            ops = [o if o.startswith("XSync") else f"XOp ({o})" for o in ops]
+            return f"check_run_x {self.variant} {plans} [{'; '.join(ops)}] [{'; '.join(obl)}]"
         return f"check_run {self.variant} {plans} [{'; '.join(ops)}] [{'; '.join(obl)}]"
 
     # ---------- oracle: the property stated directly on the run
@@ -1047,7 +1108,7 @@ class C13(vlib.Driver):
                 if r["out"] != "Ok":
                     out.append(Violation("misuse-rejected", "misuse:close-twice", f"{where}: second close() -> {r['out']} ({r['exc']})"))
                 continue
-            if k in ("async", "callbad", "setattr") and sb != "default":
+            if k in ("async", "callbad", "setattr", "sync") and sb != "default":
                 if r["out"] != "Pending" or not unchanged or any(r["sent"]):
                     out.append(Violation("misuse-rejected", f"misuse:pending:{k}",
                                          f"{where} while `{sb}` is pending: outcome {r['out']} ({r['exc']}), state {sb}->{r['state']}, commands sent {r['sent']}"))
@@ -1124,7 +1185,10 @@ class C13(vlib.Driver):
                 continue
             raisers = [j for j in range(n) if r["raised"][j] >= 0]
             others_alive = all(r["alive"][j] for j in range(n) if j not in raisers)
-            if k in ("wait", "setattr"):
+            if k == "sync" and r["out"] == "Ok" and r.get("expect_seqs") is not None and (r["seqs"] is None or list(r["seqs"]) != list(r["expect_seqs"])):
+                out.append(Violation("timeout-stale" if seen_timeout else "legal-call", ("timeout-stale" if seen_timeout else "sync") + f":{op[1]}-returns-old-results",
+                                     f"{where}: results carry command numbers {r['seqs']}, this call sent {r['expect_seqs']}"))
+            if k in ("wait", "setattr", "sync"):
                 # ---- clause 3: a sleeping worker + finite timeout is reported as a timeout (and only then)
                 if k == "wait" and op[2] and clean and any(r["blocked_before"]) and r["out"] != "Timeout":
                     out.append(Violation("timeout-reported", f"timeout:not-reported:{op[1]}",
@@ -1161,7 +1225,7 @@ class C13(vlib.Driver):
                     out.append(Violation("legal-call", f"legal-call-fails:{k}", f"{where} on a healthy environment: {r['out']} ({r['exc']}: {r.get('msg')})"))
                 elif k in ("async",) and r["state"] != op[1]:
                     out.append(Violation("legal-call", f"legal-call-state:{k}", f"{where}: state `{r['state']}` after a successful {op[1]}_async"))
-                elif k in ("wait", "setattr") and r["out"] == "Ok" and r["state"] != "default":
+                elif k in ("wait", "setattr", "sync") and r["out"] == "Ok" and r["state"] != "default":
                     out.append(Violation("legal-call", f"legal-call-state:{k}", f"{where}: state `{r['state']}` after a successful call"))
             if k == "wait" and r["out"] == "Gone":
                 gone_before = True
